@@ -134,9 +134,21 @@ def run(repo: Repo, rep: Report, tier: str) -> None:
     # ---------------------------------------------------------------- R19.2 sibling call sites of parse_parameter
     po = repo.func("core.loader.operations.parser:parse_operations")
     pcs = [c for c in calls_in(po.node) if dotted(c.func) == "parse_parameter"]
+    via_helper = None
+    if len(pcs) < 2:
+        # both levels may go through one helper of the module (`_parse_parameter_nodes(nodes, context, operation_id)`): its call sites
+        # are the sibling sites, everything but the node list (first argument) is the naming context
+        for q, hf in po.module.functions.items():
+            if "." in q or hf is po or not any(dotted(c.func) == "parse_parameter" for c in calls_in(hf.node)):
+                continue
+            hcalls = [c for c in calls_in(po.node) if isinstance(c.func, ast.Name) and c.func.id == q]
+            if len(hcalls) >= 2:
+                via_helper, pcs = q, hcalls
     rep.require(len(pcs) >= 2, f"R19.2: expected path-level and operation-level parse_parameter calls, found {len(pcs)}")
+    if len(pcs) < 2:
+        return
     sigs = {kw_signature(c) for c in pcs}
-    kwvals = [{k.arg: norm(k.value) for k in c.keywords} for c in pcs]
+    kwvals = [dict({k.arg: norm(k.value) for k in c.keywords}, **({f"arg{i}": norm(a) for i, a in enumerate(c.args) if i >= 1} if via_helper else {})) for c in pcs]
     same_vals = all(kv == kwvals[0] for kv in kwvals)
     sub = f"{po.module.relpath}:parse_operations parse_parameter call sites"
     if len(sigs) == 1 and same_vals:
@@ -151,6 +163,11 @@ def run(repo: Repo, rep: Report, tier: str) -> None:
     OL = Locals(po.node)
     opid_vars = {name for name, ds in OL.defs.items() for kind, v, _ in ds if v is not None and any(
         isinstance(x, ast.Constant) and x.value == "operationId" for x in ast.walk(v))}
+    if not opid_vars:
+        # the id may be derived by a helper of the module (`operation_id = _derive_operation_id(node_op, ...)`)
+        helpers = {q for q, f in po.module.functions.items() if "." not in q and f is not po and any(
+            isinstance(x, ast.Constant) and x.value == "operationId" for x in ast.walk(f.node))}
+        opid_vars = {name for name, ds in OL.defs.items() for kind, v, _ in ds if isinstance(v, ast.Call) and isinstance(v.func, ast.Name) and v.func.id in helpers}
     rep.require(bool(opid_vars), "R19.2: the variable holding the operation id (read from 'operationId') was not found in parse_operations")
     for callee in ("parse_response", "parse_request_body"):
         for c in [c for c in calls_in(po.node) if dotted(c.func) == callee]:
